@@ -445,6 +445,7 @@ theorem handleDuration_onlyInvalid (cu : Culture) (c : Char) (rest : Text) (st :
 def NoL (ty : PType) (text : Text) : Prop :=
   match ty with
   | .datetime _ => 'l' ∉ text
+  | .datetimeC _ => 'l' ∉ text
   | _ => True
 
 theorem handleChar_onlyInvalid (ty : PType) (cu : Culture) (c : Char) (rest : Text) (st : CSt)
@@ -457,11 +458,15 @@ theorem handleChar_onlyInvalid (ty : PType) (cu : Culture) (c : Char) (rest : Te
   · exact handleDateTime_onlyInvalid _ _ _ _ (by simp only [NoL, List.mem_cons, not_or] at hl; exact fun h => hl.1 h.symm)
   · exact handleAnnual_onlyInvalid _ _ _ _
   · exact handleDuration_onlyInvalid _ _ _ _
+  · exact handleDate_onlyInvalid _ _ _ _
+  · exact handleDateTime_onlyInvalid _ _ _ _ (by simp only [NoL, List.mem_cons, not_or] at hl; exact fun h => hl.1 h.symm)
 
 theorem noL_drop (ty : PType) (c : Char) (rest : Text) (k : Nat) (h : NoL ty (c :: rest)) : NoL ty (rest.drop k) := by
   cases ty <;> simp only [NoL] at h ⊢
-  intro hm
-  exact h (List.mem_cons_of_mem _ (List.mem_of_mem_drop hm))
+  · intro hm
+    exact h (List.mem_cons_of_mem _ (List.mem_of_mem_drop hm))
+  · intro hm
+    exact h (List.mem_cons_of_mem _ (List.mem_of_mem_drop hm))
 
 /-! ## the builder loop: the fuel suffices and only `InvalidPatternError` can come out -/
 
@@ -830,6 +835,29 @@ theorem mapR_onlyInvalid {α β : Type} (f : α → β) (r : R α) (h : OnlyInva
   | error e => have := h e hr; subst this; exact onlyInvalid_err
   | ok a => exact onlyInvalid_ok _
 
+/-- LocalDate patterns with a template value in any calendar: every pattern text, every culture record -/
+theorem compileDateC_total (cal : Nat) (cu : Culture) (text : Text) : OnlyInvalid (compileDateC cal cu text) := by
+  unfold compileDateC
+  split
+  · split
+    · exact mapR_onlyInvalid _ _ (steppedOf_onlyInvalid _ (compileCustom_onlyInvalid _ _ _))
+    · split
+      · exact compileDate_total cu _
+      · exact mapR_onlyInvalid _ _ (compileDate_total cu _)
+  · exact mapR_onlyInvalid _ _ (compileDate_total cu _)
+
+/-- LocalDateTime patterns with a template value in any calendar -/
+theorem compileDateTimeC_total (tc : TmplC) (cu : Culture) (text : Text) : OnlyInvalid (compileDateTimeC tc cu text) := by
+  unfold compileDateTimeC
+  dsimp only
+  split
+  · repeat' (first
+      | exact mapR_onlyInvalid _ _ (steppedOf_onlyInvalid _ (compileCustom_onlyInvalid _ _ _ (by simp only [NoL]; decide)))
+      | exact compileDateTime_total _ cu _
+      | exact mapR_onlyInvalid _ _ (compileDateTime_total _ cu _)
+      | split)
+  · exact mapR_onlyInvalid _ _ (compileDateTime_total _ cu _)
+
 /-- a pattern text that is not a single character never reaches the recursion bound -/
 theorem compileOffsetAux_custom (cu : Culture) (d : Nat) (text : Text) (h : 2 ≤ text.length) :
     compileOffsetAux cu (d + 1) text = compileOffsetText cu text := by
@@ -916,6 +944,8 @@ theorem compile_total (ty : PType) (cu : Culture) (hcu : cu.offsetTextsCustom = 
   · exact compileDateTime_total _ cu text
   · exact compileAnnual_total _ _ cu text
   · exact compileDuration_total cu text
+  · exact compileDateC_total _ cu text
+  · exact compileDateTimeC_total _ cu text
 
 theorem invariantCulture_offsetTextsCustom : invariantCulture.offsetTextsCustom = true := by decide
 
@@ -953,5 +983,8 @@ example : outcome (compile .duration invariantCulture "-D:hh:mm:ss.FFFFFFFFF".to
 example : outcome (compile .duration invariantCulture "D H".toList) = 1 := by decide +kernel
 example : outcome (compile .duration invariantCulture "H h".toList) = 1 := by decide +kernel
 example : outcome (compile .duration invariantCulture ['o']) = 0 := by decide +kernel
+example : outcome (compile (.dateC ⟨18, 170, 19, 1, 0⟩) invariantCulture "yyyy MMMM dd g".toList) = 0 := by decide +kernel
+example : outcome (compile (.dateC ⟨4, 5784, 13, 1, 0⟩) invariantCulture "yyyy g c".toList) = 1 := by decide +kernel
+example : outcome (compile (.datetimeC ⟨17, 1445, 3, 5, 0⟩) invariantCulture ['S']) = 0 := by decide +kernel
 
 end Pyoda.C08
